@@ -201,6 +201,31 @@ func drawPlan(rt *rapid.T) (p plan, nearConst bool) {
 		nearConst = nearConst || near && n > 18
 		p.S2C = append(p.S2C, n)
 	}
+	// long sessions: many tiny writes in one direction so the per-direction nonce counter passes
+	// 255 (first carry) and, rarely, 65535 (second carry); two seals per chunk
+	switch rapid.IntRange(0, 63).Draw(rt, "burst") {
+	case 0, 1, 2, 3, 4, 5:
+		n := rapid.IntRange(130, 400).Draw(rt, "burstN")
+		tiny := make([]int, n)
+		for i := range tiny {
+			tiny[i] = 1 + i%3
+		}
+		if rapid.Bool().Draw(rt, "burstDir") {
+			p.C2S = append(p.C2S, tiny...)
+		} else {
+			p.S2C = append(p.S2C, tiny...)
+		}
+	case 6:
+		tiny := make([]int, 33000)
+		for i := range tiny {
+			tiny[i] = 1
+		}
+		if rapid.Bool().Draw(rt, "burstDir") {
+			p.C2S = append(p.C2S, tiny...)
+		} else {
+			p.S2C = append(p.S2C, tiny...)
+		}
+	}
 	bufGen := rapid.OneOf(rapid.SampledFrom([]int{1, 2, 17, 18, 4096, maxChunk, maxChunk + 16, 70000}), rapid.IntRange(1, 70000))
 	p.C2SBufs = rapid.SliceOfN(bufGen, 1, 4).Draw(rt, "c2sBufs")
 	p.S2CBufs = rapid.SliceOfN(bufGen, 1, 4).Draw(rt, "s2cBufs")
@@ -594,7 +619,20 @@ var rec = ev.New("C01", "tunnel-ledger",
 		"checking address bytes, initial-payload split, padding bound, chunk sizes 1..65535 and plaintext equality. "+
 		"Non-trivial: bytes>0 both ways AND (a length within +-3 of a structural constant, or a read buffer smaller than a chunk, or a fragment boundary inside a length chunk, or relay topology). "+
 		"Distinct key: config class + topology + paths + order + boundary classes of payload/write lengths").
-	Require("relay", "eih>=2", "prefix>64KiB", "payload-over-room", "leftover-read", "frag-inside-length-chunk", "path-readfrom", "path-writeto", "server-first", "duplex", "readfrom-source-eof-with-data", "addr-rechecked-after-server-write", "multi-chunk", "not-segmented", "domain>=254")
+	Require("relay", "eih>=2", "prefix>64KiB", "payload-over-room", "leftover-read", "frag-inside-length-chunk", "path-readfrom", "path-writeto", "server-first", "duplex", "nonce-first-carry(>255 seals)", "nonce-second-carry(>65535 seals)", "readfrom-source-eof-with-data", "addr-rechecked-after-server-write", "multi-chunk", "not-segmented", "domain>=254")
+
+// compactPlan shortens very long write lists for the evidence samples.
+func compactPlan(p plan) map[string]any {
+	b, _ := json.Marshal(p)
+	var m map[string]any
+	json.Unmarshal(b, &m)
+	for _, k := range []string{"c2s", "s2c"} {
+		if l, ok := m[k].([]any); ok && len(l) > 12 {
+			m[k] = append(append([]any{}, l[:12]...), fmt.Sprintf("... %d writes in total", len(l)))
+		}
+	}
+	return m
+}
 
 func lenClass(n int) string {
 	switch {
@@ -621,11 +659,19 @@ func planKey(p plan) string {
 		sb.WriteString("|" + p.Cls2.key())
 	}
 	fmt.Fprintf(&sb, "|%s%d|P%s|w%d%d%d%d|o%d|c%v|", p.Target.Kind, p.Target.DomLen/64, lenClass(p.Payload), p.WPathC, p.RPathS, p.WPathS, p.RPathC, p.Order*2+b2i(p.Duplex), p.Coalesce)
-	for _, w := range p.C2S {
+	for i, w := range p.C2S {
+		if i >= 6 {
+			fmt.Fprintf(&sb, "+%d", len(p.C2S)-6)
+			break
+		}
 		sb.WriteString(lenClass(w) + ",")
 	}
 	sb.WriteByte('/')
-	for _, w := range p.S2C {
+	for i, w := range p.S2C {
+		if i >= 6 {
+			fmt.Fprintf(&sb, "+%d", len(p.S2C)-6)
+			break
+		}
 		sb.WriteString(lenClass(w) + ",")
 	}
 	return sb.String()
@@ -653,6 +699,8 @@ func classify(p plan, near bool, extra []string) (labels []string, nt bool) {
 	add(p.RPathC == pathRF || p.RPathS == pathRF, "path-writeto")
 	add(p.Order == 1, "server-first")
 	add(p.Duplex, "duplex")
+	add(len(p.C2S) >= 130 || len(p.S2C) >= 130, "nonce-first-carry(>255 seals)")
+	add(len(p.C2S) >= 33000 || len(p.S2C) >= 33000, "nonce-second-carry(>65535 seals)")
 	add(p.EOFWithData && (p.WPathC == pathRF && sum(p.C2S) > 0 || p.WPathS == pathRF && sum(p.S2C) > 0), "readfrom-source-eof-with-data")
 	add(!p.Cls.Segmented, "not-segmented")
 	add(p.Target.Kind == "domain" && p.Target.DomLen >= 254, "domain>=254")
@@ -714,7 +762,7 @@ func tunnelProp(rt *rapid.T) {
 		labels, nt := classify(p, near, r.labels)
 		rec.Case(planKey(p), nt, labels...)
 		if nt {
-			rec.Sample(p)
+			rec.Sample(compactPlan(p))
 		}
 	}
 }
